@@ -50,6 +50,15 @@ pub fn check(v: &View, vd: &mut Verdict) {
                 );
             }
         }
+        // the stream is never polled again after it ended, and its end ends the actor
+        if v.hist.iter().any(|e| matches!(&e.kind, EvKind::Note(n) if n == &format!("stream {sid} polled after it had ended"))) {
+            vd.fail("C13/stream_polled_after_end", format!("actor {a}: the attached stream was polled again after it had returned None"));
+        }
+        if let Some(e) = ended {
+            if e < v.phase(Phase::Settle) && v.actors[a].task_end.is_none_or(|(s, _)| s > v.phase(Phase::Teardown)) {
+                vd.fail("C13/not_ended_with_stream", format!("actor {a}: the stream ended at {e} (run phase) but the actor was still running when the harness dropped every handle at {}", v.phase(Phase::Teardown)));
+            }
+        }
         // termination protocol
         let av = &v.actors[a];
         let fin: Vec<&CbRec> = v.cbs.iter().filter(|c| c.actor == a && c.cb == Cb::Finished).collect();
@@ -95,5 +104,11 @@ pub fn check(v: &View, vd: &mut Verdict) {
         }
     }
     super::c01::order(v, vd, "C13");
+    // an explicit stop terminates it (and is a barrier) even if the stream never ends
+    // (only when the stream did not end: the end of the stream terminates the actor on its own)
+    let stream_over = v.hist.iter().any(|e| matches!(e.kind, EvKind::StreamEnded { .. })) || v.client_ops().any(|o| o.what == OpWhat::EndStream);
+    if !stream_over {
+        super::c04::barrier(v, vd, "C13", false);
+    }
     vd.nontrivial = nt;
 }
